@@ -207,11 +207,7 @@ def isFalse : Json → Bool
   | _ => false
 
 /-- `valid_bounds` (rule.py:608-716) on a numeric origin; `true` = accepted -/
-def checkBounds (p : Prim) (cons : Cons) : Bool :=
-  let gt := (cons.lookup "gt").bind numOf
-  let ge := (cons.lookup "ge").bind numOf
-  let lt := (cons.lookup "lt").bind numOf
-  let le := (cons.lookup "le").bind numOf
+def checkBoundsCore (p : Prim) (gt ge lt le : Option Num) : Bool :=
   if gt.isSome && ge.isSome then false                       -- "gt/ge cannot assign together"
   else if lt.isSome && le.isSome then false                  -- "lt/le cannot assign together"
   else
@@ -232,10 +228,12 @@ def checkBounds (p : Prim) (cons : Cons) : Bool :=
           | _, _ => false))
      | _, _ => true)
 
+def checkBounds (p : Prim) (cons : Cons) : Bool :=
+  checkBoundsCore p ((cons.lookup "gt").bind numOf) ((cons.lookup "ge").bind numOf)
+    ((cons.lookup "lt").bind numOf) ((cons.lookup "le").bind numOf)
+
 /-- `valid_length` (rule.py:542-598); `true` = accepted -/
-def checkLength (cons : Cons) : Bool :=
-  let mn := (cons.lookup "min_length").bind numOf
-  let mx := (cons.lookup "max_length").bind numOf
+def checkLengthCore (mn mx : Option Num) : Bool :=
   (match mn with
    | some a => isPyInt a && decide (0 ≤ a.mant)
    | none => true) &&
@@ -245,6 +243,9 @@ def checkLength (cons : Cons) : Bool :=
       | some a => a.mant == 0 || decide (a.mant ≤ b.mant)     -- min_length 0 is dropped before the comparison
       | none => true)
    | none => true)
+
+def checkLength (cons : Cons) : Bool :=
+  checkLengthCore ((cons.lookup "min_length").bind numOf) ((cons.lookup "max_length").bind numOf)
 
 /-- `isinstance(const, origin)` or an exact-tolerance pair (rule.py:763-772, `TYPE_EXACT_TOLERANCE`) -/
 def constFits (p : Prim) (v : Json) : Bool :=
@@ -603,13 +604,15 @@ def baseType (N : Names) (kvs : Obj) (subs : Subs) (ty : Option String) : Option
   else if ty == some "object" then parseObject N kvs subs cons
   else constrain (scalarClass kvs ty) cons
 
-/-- the conditions anyOf / oneOf / allOf (/ not) add (fix C15-4) -/
+/-- the condition one combinator keyword adds (fix C15-4): nothing when the keyword is absent (or empty) -/
+def condGroup (kvs : Obj) (subs : Subs) (k : String) (op : Op) : Option (List Ty) :=
+  match lookup k kvs with
+  | some v => if truthy v then (allSome (subMany subs k)).map fun ts => [combine op ts] else some []
+  | none => some []
+
+/-- the conditions anyOf / oneOf / allOf add -/
 def conditions (kvs : Obj) (subs : Subs) : Option (List Ty) :=
-  let group (k : String) (op : Op) : Option (List Ty) :=
-    match lookup k kvs with
-    | some v => if truthy v then (allSome (subMany subs k)).map fun ts => [combine op ts] else some []
-    | none => some []
-  match group "anyOf" .any, group "oneOf" .one, group "allOf" .all with
+  match condGroup kvs subs "anyOf" .any, condGroup kvs subs "oneOf" .one, condGroup kvs subs "allOf" .all with
   | some a, some b, some c => some (a ++ b ++ c)
   | _, _, _ => none
 
@@ -959,55 +962,73 @@ end
 
 def oneOfOverlap (C : Ctx) (s j : Json) : Bool := !oneOfAtMost C s j
 
+def numAt (kvs : Obj) (k : String) : Option Num := (lookup k kvs).bind numOf
+
+/-- the lower / upper numeric bounds a schema object states -/
+def lows (kvs : Obj) : List Num := [numAt kvs "minimum", numAt kvs "exclusiveMinimum"].filterMap id
+def highs (kvs : Obj) : List Num := [numAt kvs "maximum", numAt kvs "exclusiveMaximum"].filterMap id
+
+/-- numeric bounds `Rule` refuses (rule.py:608-716): an inclusive and an exclusive bound on one side; a lower bound
+not below an upper one (equal inclusive bounds included), one written as int and one as float, two integer bounds with
+at most one integer between them; a float bound on a Decimal -/
+def boundsBad (kvs : Obj) : Bool :=
+  ((numAt kvs "minimum").isSome && (numAt kvs "exclusiveMinimum").isSome) ||
+  ((numAt kvs "maximum").isSome && (numAt kvs "exclusiveMaximum").isSome) ||
+  ((lows kvs).any fun a => (highs kvs).any fun b =>
+    !a.lt b || isPyInt a != isPyInt b || (isPyInt a && decide (b.mant - a.mant < 2))) ||
+  ((lookupStr "format" kvs).bind typeMap == some Prim.decimal && (lows kvs ++ highs kvs).any fun a => !isPyInt a)
+
+/-- an upper size bound of 0, or below the lower one (rule.py:542-598) -/
+def sizePairBad (kvs : Obj) (mx mn : String) : Bool :=
+  match numAt kvs mx with
+  | some b => b.mant == 0 || (match numAt kvs mn with
+    | some a => decide (b.mant < a.mant)
+    | none => false)
+  | none => false
+
+def sizesBad (kvs : Obj) : Bool :=
+  sizePairBad kvs "maxLength" "minLength" || sizePairBad kvs "maxItems" "minItems" ||
+  sizePairBad kvs "maxProperties" "minProperties"
+
+/-- no items after the prefix (`items: false`) next to a size bound of its own: the cap the parser adds then has to
+agree with `minItems` / `maxItems` (the build raises when more are required than the prefix has; the other
+combinations are listed here too, to keep the predicate one line) -/
+def closedTupleBad (kvs : Obj) : Bool :=
+  match lookup "items" kvs, lookup "prefixItems" kvs with
+  | some (.bool false), some (.arr _) => hasKey "minItems" kvs || hasKey "maxItems" kvs
+  | _, _ => false
+
+/-- a const that is not a value of primitive type `t`, or whose class is a tuple or a format class -/
+def constMisfit (kvs : Obj) (v : Json) (t : String) : Bool :=
+  t != "null" && (!typeIs t v ||
+    (match (lookupStr "format" kvs).bind typeMap with
+     | some p => primitiveOf p == t && (match p with
+       | .sfmt _ => true
+       | .tuple => true
+       | .decimal => !(match v with
+         | .num n => isPyInt n
+         | _ => false)
+       | _ => false)
+     | none => false) ||
+    (t == "array" && (match lookup "prefixItems" kvs with
+      | some p => truthy p
+      | none => false)))
+
+def constBad (kvs : Obj) : Bool :=
+  match lookup "const" kvs with
+  | some v =>
+    (match lookup "type" kvs with
+     | some (.arr ts) => (ts.filterMap strOf).any (constMisfit kvs v)
+     | some (.str t) => constMisfit kvs v t
+     | _ => (match inferType kvs with
+       | some t => constMisfit kvs v t
+       | none => false))
+  | none => false
+
 /-- `degenerate-constraints`: constraint sets `Rule` refuses to declare (rule.py:542-716, 757-772), so the
 build raises `ConfigError`, stated on one schema object in the schema's own words -/
 def degenerateHere (kvs : Obj) : Bool :=
-  let num (k : String) := (lookup k kvs).bind numOf
-  let lo := num "minimum" <|> num "exclusiveMinimum"
-  let hi := num "maximum" <|> num "exclusiveMaximum"
-  -- an inclusive and an exclusive bound on the same side
-  ((num "minimum").isSome && (num "exclusiveMinimum").isSome) ||
-  ((num "maximum").isSome && (num "exclusiveMaximum").isSome) ||
-  -- lower bound not below the upper bound (equal inclusive bounds included), or one written as int and one as float,
-  -- or two exclusive integer bounds with at most one integer between them
-  (match lo, hi with
-   | some a, some b => !a.lt b || isPyInt a != isPyInt b || (isPyInt a && decide (b.mant - a.mant < 2))
-   | _, _ => false) ||
-  -- a float bound on a Decimal
-  (lookupStr "format" kvs == some "decimal" && ((lo.map fun a => !isPyInt a).getD false || (hi.map fun b => !isPyInt b).getD false)) ||
-  -- an upper size bound of 0, or below the lower one
-  (["Length", "Items", "Properties"].any fun g =>
-    match num ("max" ++ g) with
-    | some b => b.mant == 0 || (match num ("min" ++ g) with
-      | some a => decide (b.mant < a.mant)
-      | none => false)
-    | none => false) ||
-  -- no items after the prefix, but more required than the prefix has
-  ((match lookup "items" kvs, lookup "prefixItems" kvs, (lookup "minItems" kvs).bind numOf with
-    | some (.bool false), some (.arr ss), some m => decide ((ss.length : Int) < m.mant)
-    | _, _, _ => false)) ||
-  -- a const that is not a value of (one of) the declared / inferred type(s), or whose class is a tuple or a format class
-  (match lookup "const" kvs with
-   | some v =>
-     let fmtMisfit (t : String) : Bool := match (lookupStr "format" kvs).bind typeMap with
-       | some p => primitiveOf p == t && (match p with
-         | .sfmt _ => true
-         | .decimal => !(match v with
-           | .num n => isPyInt n
-           | _ => false)
-         | _ => false)
-       | none => false
-     let misfit (t : String) : Bool :=
-       t != "null" && (!typeIs t v || fmtMisfit t || (t == "array" && (match lookup "prefixItems" kvs with
-         | some p => truthy p
-         | none => false)))
-     (match lookup "type" kvs with
-      | some (.arr ts) => (ts.filterMap strOf).any misfit
-      | some (.str t) => misfit t
-      | _ => (match inferType kvs with
-        | some t => misfit t
-        | none => false))
-   | none => false)
+  boundsBad kvs || sizesBad kvs || closedTupleBad kvs || constBad kvs
 
 mutual
 def degenerate (s : Json) : Bool :=
